@@ -35,6 +35,15 @@ pub struct SupRun {
     pub log: Vec<String>,
 }
 
+thread_local! {
+    static CUR_STEP: std::cell::Cell<usize> = const { std::cell::Cell::new(0) };
+}
+
+/// Inside a `decide` callback: the index of the step whose window the gate falls in.
+pub fn current_step() -> usize {
+    CUR_STEP.with(|c| c.get())
+}
+
 pub struct Paths {
     pub cache: PathBuf,
     pub scratch: PathBuf,
@@ -84,11 +93,13 @@ pub fn run_supervised_opt(
     let mut status = String::new();
     let mut killed = false;
     let mut cur_step = from;
+    CUR_STEP.with(|c| c.set(from));
     loop {
         match sup.next() {
             Ev::Marker { begin, n, .. } => {
                 if begin {
                     cur_step = n;
+                    CUR_STEP.with(|c| c.set(n));
                 }
             }
             Ev::Gate(g) => {
